@@ -17,7 +17,7 @@ MSGS = 'muscle::Thread::ThreadSpecificData::_messages'
 
 
 def run(res, tier):
-    fx = common.load_units(res, ['system/Thread.cpp', 'system/ThreadPool.cpp'], fn_regex=r'^muscle::(Thread|WaitCondition)(::|$)')
+    fx = common.load_units(res, ['system/Thread.cpp', 'system/ThreadPool.cpp', 'util/SocketMultiplexer.cpp'], fn_regex=r'^muscle::(Thread|WaitCondition|SocketMultiplexer)(::|$)')
     funcs = [f for f in fx.funcs.values() if f.full and (f.cls == TH or (f.cls or '').startswith(TH + '::'))]
     if len(funcs) < 30:
         raise AnalysisBroken('only %d Thread functions' % len(funcs))
@@ -243,12 +243,67 @@ def run(res, tier):
         ok = ok and P.must_follow(f, start[0], sig, escapes=esc)[0]
     res.ob('LIFECYCLE', f.where(), 'StartInternalThread signals the internal thread after starting it when Messages were already queued', ok, function=f.q, key='LIFECYCLE|%s|initial-signal' % f.q,
            message='Messages queued before StartInternalThread are not announced to the new thread: it sleeps with a non-empty queue')
+    round3_rules(res, fx)
     res.explanation = ('Static decision of the hand-off structure between a Thread and its owner: %d accesses to the Message queues all under the queue\'s own lock; enqueue and the first-Message decision in one '
                        'critical section, signalling after it and to the right side; in the receiver the wake-up drain precedes the dequeue and cannot occur between dequeue and block, every blocking call is '
                        'preceded by a dequeue attempt, holds no lock, and is followed by a re-entry that dequeues again; the wait condition counts notifications under its mutex and waits with a predicate. '
                        'Interleavings and FIFO across senders are not explored.' % n_acc)
     res.assumptions = ['socket pair delivers the signal byte; std::condition_variable semantics']
     res.not_decided = ['exactly-once / in-order delivery over interleavings', 'join liveness']
+
+
+def round3_rules(res, fx):
+    # DRAIN: the owner is signalled only when the reply queue goes from empty to non-empty (SEND-ORDER), so whoever answers that signal must take replies until none is left
+    res.rule('DRAIN', 'Thread::DispatchCallbacks dequeues replies in a loop whose continuation is the success of the dequeue (it empties the queue: the next signal comes only after the queue was empty)', floor=1)
+    f = fx.fn1(TH + '::DispatchCallbacks')
+    deq = P.calls(f, r'::GetNextReplyFromInternalThread$')
+    ok = False
+    for c in deq:
+        for (h, body) in C.natural_loops(f):
+            cnd = f.blocks[h].cond
+            exits = [f.nodes[f.blocks[b].cond] for b in body if f.blocks[b].cond is not None and f.blocks[b].cond in f.nodes and any(s_ is not None and s_ >= 0 and s_ not in body for s_ in f.blocks[b].succ)]
+            if any(c in list(A.walk_through_locals(f, e)) or any(x is c for x in e.walk()) for e in exits):
+                ok = True
+    res.ob('DRAIN', f.where(deq[0]) if deq else f.where(), 'DispatchCallbacks takes replies until GetNextReplyFromInternalThread() fails', ok, function=f.q, key='DRAIN|%s' % f.q,
+           message='DispatchCallbacks takes at most one reply per callback: SendMessageAux() signals the owner only when the reply queue goes from empty to non-empty, so replies queued behind the '
+                   'first are never announced again and, because the queue never becomes empty, neither is any later reply — they are never delivered')
+    # EAGER-INIT: objects that both threads reach through a lazily constructing holder are constructed before the internal thread can exist
+    res.rule('EAGER-INIT', 'Thread::Thread calls EnsureObjectConstructed() on the per-direction wait conditions (DemandConstructedObject constructs on first use with an unsynchronised test; the '
+                           'owner\'s first Notify() and the internal thread\'s first Wait() would race to construct it)', floor=1)
+    ctors = [g for g in fx.funcs.values() if g.full and g.q == TH + '::(ctor)']
+    if not ctors:
+        raise AnalysisBroken('EAGER-INIT: Thread constructor not found')
+    lazy_used = any(x['k'] == 'MemberExpr' and x.get('n') == '_waitCondition' and 'DemandConstructedObject' in x.type() for g in fx.funcs.values() if g.full and g.q.startswith(TH + '::') for x in g.walk())
+    eager = any(c.is_call() and (c.get('q') or '').endswith('::EnsureObjectConstructed') and any(x['k'] == 'MemberExpr' and x.get('n') == '_waitCondition' for x in c.walk()) for g in ctors for c in g.walk())
+    res.ob('EAGER-INIT', ctors[0].where(), 'the wait conditions are constructed in the Thread constructor', eager or not lazy_used, function=ctors[0].q, key='EAGER-INIT|%s' % TH,
+           how='_waitCondition is a DemandConstructedObject: %s' % lazy_used,
+           message='Thread::Thread no longer constructs the DemandConstructedObject<WaitCondition> members eagerly: the first Notify() by the owner and the first Wait() by the internal thread can '
+                   'both construct the same object, the second construction wipes the pending notification, and the wake-up is lost for good')
+    # EINTR: a blocking wait that was interrupted by a signal is not an error
+    res.rule('EINTR', 'SocketMultiplexer::FDState::WaitForEvents: every error return after a failed select()/poll() is taken only when PreviousOperationWasInterrupted() is false', floor=1)
+    n = 0
+    for g in sorted((g for g in fx.funcs.values() if g.full and g.q.endswith('FDState::WaitForEvents')), key=lambda g: (g.file, g.line)):
+        sys = [c for c in g.walk() if c.is_call() and (c.get('q') or '') in ('select', 'poll', 'epoll_wait', 'kevent')]
+        holders = set(v['d'] for v in g.walk() if v['k'] == 'VarDecl' and v['ch'] and any(x in sys for x in v['ch'][0].walk()))
+        for r in (x for x in g.walk() if x['k'] == 'ReturnStmt' and x['ch']):
+            failed = False
+            for (a, t) in G.atoms_at(g, r):
+                for (l_, op_, r_) in A.rel_forms(a, t):
+                    if op_ in ('<',) and r_.get('v') == 0 and (l_.get('d') in holders or any(x in sys for x in l_.walk())):
+                        failed = True
+            if not failed:
+                continue
+            n += 1
+            # the returned value either is the result of the ?: on PreviousOperationWasInterrupted(), or the return is dominated by its false edge
+            okr = any(x.is_call() and (x.get('q') or '').endswith('PreviousOperationWasInterrupted') for x in A.walk_through_locals(g, r['ch'][0])) or \
+                any(a.is_call() and (a.get('q') or '').endswith('PreviousOperationWasInterrupted') and not t for (a, t) in G.atoms_at(g, r))
+            res.ob('EINTR', g.where(r), 'WaitForEvents: a failed %s returns an error only if it was not interrupted' % '/'.join(sorted(set((c.get('q') or '') for c in sys))), okr, function=g.q,
+                   key='EINTR|%s|%s' % (g.q, r.get('l')),
+                   message='SocketMultiplexer::FDState::WaitForEvents returns the errno of an interrupted %s as an error: Thread::WaitForNextMessageAux() passes it on, the stock InternalThreadEntry() '
+                           'tolerates only B_TIMED_OUT, so a handled signal delivered to an idle internal thread makes it exit silently and every later Message is queued but never received'
+                           % '/'.join(sorted(set((c.get('q') or '') for c in sys))))
+    if n < 1:
+        raise AnalysisBroken('EINTR: no error return after a failed select()/poll() found in SocketMultiplexer::FDState::WaitForEvents')
 
 
 def early_return_edges(g):
